@@ -176,6 +176,8 @@ pub struct PropSub<T> {
     pub check: Box<CheckFn<T>>,
     /// candidate reductions of a failing case (structural minimisation after proptest's shrinking)
     pub minimise: Option<Box<MinFn<T>>>,
+    /// domain predicate: minimised cases must stay inside the generated domain
+    pub valid: Option<Box<dyn Fn(&T) -> bool + Send + Sync>>,
 }
 
 impl<T> PropSub<T>
@@ -196,7 +198,12 @@ where
             strat: Box::new(strat),
             check: Box::new(check),
             minimise: None,
+            valid: None,
         }
+    }
+    pub fn with_validity(mut self, v: impl Fn(&T) -> bool + Send + Sync + 'static) -> Self {
+        self.valid = Some(Box::new(v));
+        self
     }
     pub fn with_minimiser(mut self, m: impl Fn(&T) -> Vec<T> + Send + Sync + 'static) -> Self {
         self.minimise = Some(Box::new(m));
@@ -237,6 +244,11 @@ where
         let Ok(val) = serde_json::to_value(&v) else { return v };
         let test = |cand: &Value| -> Option<String> {
             let t: T = serde_json::from_value(cand.clone()).ok()?;
+            if let Some(valid) = &self.valid {
+                if !valid(&t) {
+                    return None;
+                }
+            }
             let mut scratch = Stats::default();
             self.eval(&t, &mut scratch).err()
         };
